@@ -11,18 +11,26 @@ import traceback
 import warnings
 
 
-def run_job(job):
-    from dverif.natspec import NatSpec, PreconditionNotMet
-    mod = importlib.import_module(job["module"])
-    contract = getattr(mod, job["contract"])()
-    case = job["case"]
-    S = NatSpec(job["inputs"])
+def _check_repo():
     import dimarray
     import os
     want = os.environ.get("DVERIF_REPO", "/repo")
     if not os.path.abspath(dimarray.__file__).startswith(os.path.abspath(want) + os.sep):
         raise RuntimeError("native runner imported dimarray from %s, expected %s" % (dimarray.__file__, want))
-    res = {"case": case.get("name"), "contract": job["contract"]}
+
+
+def _resolve(contract):
+    modname, qual = contract.target.split(":")
+    obj = importlib.import_module(modname)
+    for part in qual.split("."):
+        obj = getattr(obj, part)
+    return obj
+
+
+def evaluate(contract, case, S):
+    """run the real function on the inputs S provides and evaluate every clause of the contract"""
+    from dverif.natspec import PreconditionNotMet
+    res = {"case": case.get("name"), "contract": type(contract).__name__}
     try:
         env = contract.setup(S, case)
         env.setdefault("case", case)
@@ -31,10 +39,7 @@ def run_job(job):
         res["outcome"] = "precondition-not-met"
         res["reason"] = str(e)
         return res
-    modname, qual = contract.target.split(":")
-    obj = importlib.import_module(modname)
-    for part in qual.split("."):
-        obj = getattr(obj, part)
+    obj = _resolve(contract)
     try:
         result = contract.call(obj, env)
         outcome = ("return", result)
@@ -49,11 +54,15 @@ def run_job(job):
             res["outcome"] = "return"
             res["result"] = repr(outcome[1])[:300]
             for E, cond in rz.items():
-                clauses["raises[%s].absent" % E.__name__] = not cond
+                clauses["raises[%s].absent" % E.__name__] = not (cond[0] if isinstance(cond, tuple) else cond)
             for clause in contract.post(S, case, env, outcome[1]):
-                clauses["post." + clause[0]] = bool(clause[1])
-            for nm, f in contract.canaries(S, case, env, outcome[1]):
-                clauses["canary." + nm] = bool(f)
+                f = clause[1]
+                clauses["post." + clause[0]] = bool(f() if callable(f) else f)
+            try:
+                for nm, f in contract.canaries(S, case, env, outcome[1]):
+                    clauses["canary." + nm] = bool(f)
+            except Exception as e:
+                res["canary_error"] = "%s: %s" % (type(e).__name__, e)
         else:
             E = outcome[1]
             res["outcome"] = "raise " + E.__name__
@@ -61,13 +70,29 @@ def run_job(job):
             if not matched:
                 clauses["raises[%s].unexpected" % E.__name__] = False
             else:
-                clauses["raises[%s].justified" % matched[0].__name__] = bool(rz[matched[0]])
+                cnd = rz[matched[0]]
+                clauses["raises[%s].justified" % matched[0].__name__] = bool(cnd[1] if isinstance(cnd, tuple) else cnd)
                 for nm, f in contract.post_exc(S, case, env, outcome[2]):
                     clauses["post_exc." + nm] = bool(f)
     except Exception as e:
         res["spec_error"] = "%s: %s\n%s" % (type(e).__name__, e, traceback.format_exc()[-800:])
     res["clauses"] = clauses
     return res
+
+
+def run_job(job):
+    from dverif.natspec import NatSpec
+    _check_repo()
+    mod = importlib.import_module(job["module"])
+    contract = getattr(mod, job["contract"])()
+    case = job["case"]
+    if job.get("mode") == "enumerate":
+        from dverif import family
+        st = family.enumerate_case(contract, case, lambda S: evaluate(contract, case, S),
+                                   maxlen=job.get("maxlen", 3), cap=job.get("cap", 2000), seed=job.get("seed", 0))
+        st.update(case=case.get("name"), contract=job["contract"], maxlen=job.get("maxlen", 3), cap=job.get("cap", 2000))
+        return st
+    return evaluate(contract, case, NatSpec(job["inputs"]))
 
 
 def main():
